@@ -225,11 +225,19 @@ Qed.
 
 (* ---- removeDeprecatedFiles: how many files go, and which ---------------------------------------
    1 listMetricFiles . 2 os.Remove(files[i]) . 3 os.Remove(idx of files[i]) *)
+Ltac unwrap_i64 :=
+  repeat match goal with |- context [i64 ?x] =>
+    rewrite (i64_id x) by (unfold in_i64, two63, two31, two32 in *; lia) end.
+
 Lemma ml_removeDeprecatedFiles_step_spec max files_ok i n rm_ok rmidx_ok :
+  0 <= n < two31 -> 0 <= max < two32 -> 0 <= i < two32 ->
   ml_removeDeprecatedFiles_step max files_ok i n rm_ok rmidx_ok =
   if negb files_ok || (n =? 0) then (LReturn (if files_ok then 0 else 1), [A0 1]) else
-  if i <? i64 (i64 (n - max) + 1) then (LContinue (i64 (i + 1)), [A0 1; A0 2; A0 3]) else (LBreak i, [A0 1]).
-Proof. unfold ml_removeDeprecatedFiles_step. cbv zeta. destruct files_ok; cbn [negb orb]; leaf_cases. Qed.
+  if i <? n - max + 1 then (LContinue (i + 1), [A0 1; A0 2; A0 3]) else (LBreak i, [A0 1]).
+Proof.
+  intros Hn Hm Hi. unfold ml_removeDeprecatedFiles_step. cbv zeta. unwrap_i64.
+  destruct files_ok; cbn [negb orb]; leaf_cases.
+Qed.
 
 (* the indices removed by the loop started at i (the regenerated step iterated) *)
 Fixpoint remove_iter (fuel : nat) (max n i : Z) : list Z :=
@@ -249,14 +257,11 @@ Lemma remove_iter_ok fuel max n : forall i, 0 < n < two31 -> 0 <= max < two32 ->
   remove_iter fuel max n i = count_up fuel i (n - max + 1).
 Proof.
   induction fuel as [|f IH]; intros i Hn Hm Hi; [reflexivity|].
-  cbn [remove_iter count_up]. rewrite ml_removeDeprecatedFiles_step_spec. cbn [negb orb].
-  unfold two31, two32 in *.
+  cbn [remove_iter count_up]. rewrite ml_removeDeprecatedFiles_step_spec by (unfold two31, two32 in *; lia).
+  cbn [negb orb]. unfold two31, two32 in *.
   replace (n =? 0) with false by (symmetry; apply Z.eqb_neq; lia).
-  rewrite (i64_id (n - max)) by (unfold in_i64, two63; lia).
-  rewrite (i64_id (n - max + 1)) by (unfold in_i64, two63; lia).
   destruct (i <? n - max + 1) eqn:E; cbn [fst]; [|reflexivity].
-  apply Z.ltb_lt in E. rewrite (i64_id (i + 1)) by (unfold in_i64, two63; lia).
-  f_equal. apply IH; lia.
+  apply Z.ltb_lt in E. f_equal. apply IH; lia.
 Qed.
 
 (* ================================================================== searcher.go ===== *)
@@ -630,18 +635,21 @@ Lemma ml_readMaxLines_step_params : LeafParams.ml_readMaxLines_step = "eof" :: "
 Proof. reflexivity. Qed.
 End ParamNames.
 
-Print Assumptions ml_isNewDay_ok.
-Print Assumptions ml_Write_spec.
-Print Assumptions ml_Write_refines.
-Print Assumptions before3_indep.
-Print Assumptions ml_rollFileIfSizeExceeded_spec.
-Print Assumptions ml_nextFileNameOfTime_some.
-Print Assumptions remove_iter_ok.
-Print Assumptions ml_isPositionInTimeFor_ok.
-Print Assumptions ml_getOffsetStartAndFileIdx_ok.
-Print Assumptions gen_search_ok.
-Print Assumptions gen_scan_ok.
-Print Assumptions ml_readLine_spec.
-Print Assumptions gen_rbe_ok.
-Print Assumptions gen_rm_ok.
-Print Assumptions ml_getLatestSecond_ok.
+(* one traversal for all obligations (each Print Assumptions costs ~0.5 s in this environment) *)
+Definition C17_leaf_obligations := (
+  @ml_isNewDay_ok,
+  @ml_Write_spec,
+  @ml_Write_refines,
+  @before3_indep,
+  @ml_rollFileIfSizeExceeded_spec,
+  @ml_nextFileNameOfTime_some,
+  @remove_iter_ok,
+  @ml_isPositionInTimeFor_ok,
+  @ml_getOffsetStartAndFileIdx_ok,
+  @gen_search_ok,
+  @gen_scan_ok,
+  @ml_readLine_spec,
+  @gen_rbe_ok,
+  @gen_rm_ok,
+  @ml_getLatestSecond_ok).
+Print Assumptions C17_leaf_obligations.
